@@ -4,6 +4,8 @@
        [k |-> "start" | "commit" | "abort" | "reopen" | "repack"]
        [k |-> "rev", c |-> [rev, sha, tree, ver], objs |-> <<[t, sha, fid, rev], ...>>]     one CacheUpdater
        [k |-> "q", q |-> look-up name, a |-> <<args>>, r |-> [k, s, l]]                      a look-up and its answer
+       [k |-> "raised", call |-> "start" | "rev" | "commit" | "abort" | "reopen", exc |-> name]   an update call raised
+                                                             (last event of the trace: the rest of the sequence is skipped)
    (all ids are small tokens; the harness interns the real bytes).  Update events drive the abstract state of
    GitShaMap; a look-up event is right iff  r = Lookup(state, a)  - decided here, not in python.  A wrong answer
    does not stop the trace: it prints one BAD line <<"BAD", tid, l, q, class, detail>> where class/detail say HOW the
@@ -33,6 +35,11 @@ Class(q, a, r) ==
     ELSE IF x.k = "exc" THEN <<"answers-unknown-key", r.k>>
     ELSE <<"other", r.k>>
 
+\* would the abstract map accept this update call in the state reached?  (a backend that raises there is wrong)
+Accepts(call) == CASE call = "start" -> ~wg
+                   [] call \in {"rev", "commit", "abort"} -> wg
+                   [] OTHER -> ~wg
+
 TraceInit == Init /\ tid \in 1..Len(Traces) /\ l = 1
 Consume ==
     /\ l <= Len(Evs)
@@ -43,6 +50,8 @@ Consume ==
          [] e.k = "abort"  -> AbortWG
          [] e.k = "reopen" -> Reopen
          [] e.k = "repack" -> Repack
+         [] e.k = "raised" -> /\ UNCHANGED vars
+                              /\ IF Accepts(e.call) THEN PrintT(<<"BAD", tid, l, e.call, "raises", e.exc>>) ELSE TRUE
          [] e.k = "q"      -> /\ UNCHANGED vars
                               /\ IF Right(e.q, e.a, e.r) THEN TRUE
                                  ELSE PrintT(<<"BAD", tid, l, e.q, Class(e.q, e.a, e.r)[1], Class(e.q, e.a, e.r)[2]>>)
